@@ -37,8 +37,9 @@ type LeanStatus struct {
 		Axioms []string `json:"axioms"`
 		OK     bool     `json:"ok"`
 	} `json:"theorems"`
-	Forbidden []string `json:"forbidden"`
-	Log       string   `json:"log"`
+	Forbidden   []string `json:"forbidden"`
+	FailedDecls []string `json:"failed_decls"`
+	Log         string   `json:"log"`
 	Gen       *struct {
 		OK  bool   `json:"ok"`
 		Log string `json:"log"`
@@ -63,7 +64,22 @@ func LoadLean(path string) (*LeanStatus, error) {
 func (s *LeanStatus) Broken() []string {
 	var out []string
 	if !s.BuildOK {
-		out = append(out, "lake build Restful.Props."+s.Property+" failed")
+		msg := "lake build Restful.Props." + s.Property + " failed"
+		if len(s.FailedDecls) > 0 {
+			msg += " at " + strings.Join(s.FailedDecls, " | ")
+		}
+		out = append(out, msg)
+		// the theorems of the property could not be audited because the build stopped: say so once
+		n := 0
+		for _, t := range s.Theorems {
+			if !t.OK {
+				n++
+			}
+		}
+		if n > 0 {
+			out = append(out, fmt.Sprintf("%d theorems of the property not audited because the build failed", n))
+		}
+		return out
 	}
 	for _, t := range s.Theorems {
 		if !t.OK {
